@@ -23,9 +23,20 @@ func (e *Enc) script(o *Obligation) string {
 	if o.Src != "" {
 		b.WriteString("; clause: " + strings.ReplaceAll(o.Src, "\n", " ") + "\n")
 	}
-	asserts := e.asserts[:o.nAsserts]
-	if o.Cover {
+	var asserts []string
+	if o.Cover || o.block == nil {
 		asserts = e.asserts // vacuity: all assumptions of the function together
+		if !o.Cover {
+			asserts = e.asserts[:o.nAsserts]
+		}
+	} else {
+		// only assumptions made on some path to the obligation's block (and global facts)
+		anc := e.ancestors(o.block)
+		for i, a := range e.asserts[:o.nAsserts] {
+			if b := e.assertBlk[i]; b == nil || anc[b] {
+				asserts = append(asserts, a)
+			}
+		}
 	}
 	var body strings.Builder
 	for _, a := range asserts {
